@@ -679,9 +679,14 @@ def stats_table(cx):
         ('positive-only sample: events strictly greater than 0 in the channel', 'SP = %s[R][%s[R][:, C] > 0]' % (smp, smp)),
         ('no non-positive events: the whole gated sample', 'SP = %s[R]' % smp),
         ('the note says that geometric statistics use positive events only', "%s.at[R, 'Analysis Notes'] = MSG" % tbl),
+        ('note text: channel and percentage of positive events',
+         "MSG = 'Geometric statistics for channel' + ' {} calculated on positive events'.format(C) + "
+         "' only ({:.1f}%%). '.format(100.0 * SP.shape[0] / %s[R].shape[0])" % smp),
+        ('the note is added to the notes the row already has (one note per channel)', "MSG = %s.loc[R, 'Analysis Notes'] + MSG" % tbl),
+        ('... when it has some', "if %s.loc[R, 'Analysis Notes']:" % tbl),
         ('statistics are computed only where units are given', 'if pd.notnull(%s[H][R]):' % tbl),
     ]
-    b = inventory(fn, 'TABLE', items, ['C', 'R', 'SP', 'MSG', 'H'])
+    b = inventory(fn, 'TABLE', items, ['C', 'R', 'SP', 'MSG', 'H'], ordered_add=True)
     # bijection: ten distinct functions of FlowCal.stats, ten distinct columns
     calls = [c for c in fn.calls() if (dotted(c.func) or '').startswith('FlowCal.stats.')]
     fns = sorted(dotted(c.func).split('.')[-1] for c in calls)
@@ -790,6 +795,12 @@ def read_write(cx):
         ('the table read is what is returned', 'return T'),
         ('pandas reads the requested sheet with the requested index column', "KW = {'io': MEM, 'sheet_name': sheetname, 'index_col': index_col}"),
         ('the file is read into memory first', 'MEM = six.BytesIO(F.read())'),
+        ('first engine: openpyxl', "KW['engine'] = 'openpyxl'"),
+        ('second engine xlrd (pandas does not know openpyxl)', "KW['engine'] = 'xlrd'"),
+        ('second engine xlrd (openpyxl cannot be imported)', "KW['engine'] = 'xlrd'"),
+        ('second engine xlrd (openpyxl refuses the file type)', "KW['engine'] = 'xlrd'"),
+        ('second engine xlrd (not a zip archive)', "KW['engine'] = 'xlrd'"),
+        ('the engine the caller asked for', "KW['engine'] = engine"),
         ('read with the first engine (openpyxl)', 'T = pd.read_excel(**KW)'),
         ('read again with xlrd when pandas does not know openpyxl', 'T = pd.read_excel(**KW)'),
         ('read again with xlrd when openpyxl cannot be imported', 'T = pd.read_excel(**KW)'),
@@ -813,7 +824,15 @@ def read_write(cx):
         ('each table goes to the sheet of its own name, without a second index', 'DF.to_excel(W, sheet_name=SN, index=False)'),
         ('one writer for the requested file', "W = pd.ExcelWriter(filename, engine='openpyxl')"),
         ('the workbook is closed (saved)', 'W.close()'),
-    ], ['SN', 'DF', 'W'])
+        ('column width of every column of the sheet', 'W.sheets[SN].column_dimensions[CL].width = WD'),
+        ('... addressed by its spreadsheet letter', 'CL = openpyxl.utils.get_column_letter(I + 1)'),
+        ('... over the columns of the table', 'for I, (CN, CO) in enumerate(six.iteritems(DF)):'),
+        ('automatic width: when no width is given', 'if column_width is None:'),
+        ('automatic width: the widest cell as text', 'MC = CO.astype(str).str.len().max()'),
+        ('automatic width: ... or the column name if wider', 'MC = max(len(CN), MC)'),
+        ('automatic width', 'WD = float(MC)'),
+        ('given width', 'WD = float(column_width)'),
+    ], ['SN', 'DF', 'W', 'CL', 'WD', 'I', 'CN', 'CO', 'MC'])
     cl = [c for c in fw.calls() if isinstance(c.func, ast.Attribute) and c.func.attr == 'close']
     ok = bool(cl) and fw.parent.get(id(fw.cfg.stmt_of(cl[0]))) is fw.ast
     fw.ob('SEQ', 'closing is unconditional', ok, cl[0] if cl else fw.ast, key='close-unconditional')
@@ -886,4 +905,33 @@ def about_and_cli(cx):
            key='cli')
     if calls:
         fn2.ctx_ob('SEQ', 'run() is called unconditionally', fn2.cfg.stmt_of(calls[0]))
+    return fn
+
+
+def empty_table(cx, qual):
+    """EMPTY: an empty table yields an empty result of the same form as a processed one: under
+    `<table>.empty` the function returns, for each remaining condition (full_output or not), the very
+    expression it returns at its end; the returned containers are created before the test and nothing is
+    put into them in between."""
+    from ..rules import run_context
+    fn = Fn(cx, qual)
+    tbl = fn.params[0]
+    lit = 'when ' + sym.show(sym.norm('%s.empty' % tbl))
+    nlit = 'unless ' + sym.show(sym.norm('%s.empty' % tbl))
+    E, N = {}, {}
+    for r in fn.walk(None, into_nested=False):
+        if not isinstance(r, ast.Return):
+            continue
+        c = run_context(fn, r, None, resolved=False) or []
+        v = sym.show(sym.norm(r.value)) if r.value is not None else 'None'
+        rest = ' & '.join(x for x in c if x not in (lit, nlit)) or 'always'
+        if lit in c:
+            E[rest] = (v, r)
+        elif nlit in c:
+            N[rest] = (v, r)
+    ok = bool(E) and {k: v[0] for k, v in E.items()} == {k: v[0] for k, v in N.items()}
+    site = list(E.values())[0][1] if E else fn.ast
+    fn.ob('EMPTY', 'an empty table returns what a processed table returns, case by case', ok, site,
+          detail='' if ok else 'empty table: %s; otherwise: %s' % ({k: v[0] for k, v in E.items()}, {k: v[0] for k, v in N.items()}),
+          key='empty-returns')
     return fn
